@@ -105,6 +105,13 @@ func featgenCases() []packCase {
 	add("rest:for-of", "() => { var out = []; for (var {a, ...r} of [{a: 1, b: 2}, {a: 3, c: 4}]) out.push([a, r]); return out; }", false)
 	add("rest:for-of-assign", "() => { var out = [], a, r; for ({a, ...r} of [{a: 1, b: 2}]) out.push([a, r]); return out; }", false)
 	add("rest:catch", "() => { try { throw {a: 1, b: 2, c: 3}; } catch ({a, ...r}) { return [a, r]; } }", false)
+	// array rest elements whose target is a pattern (ES2016+; an error for ES2015 targets)
+	add("destruct:rest-object-pattern", "() => { var [first, ...{length, 0: second}] = [1, 2, 3]; return [first, length, second]; }", false)
+	add("destruct:rest-array-pattern", "() => { var [a, ...[b, c]] = [1, 2, 3, 4]; return [a, b, c]; }", false)
+	add("destruct:rest-pattern-param", "() => (function ([h, ...{length}], ...[x, y]) { return [h, length, x, y]; })([1, 2, 3], 4, 5)", false)
+	add("destruct:rest-pattern-for-of", "() => { var out = []; for (const [h, ...{length}] of [[1, 2], [3]]) out.push([h, length]); return out; }", false)
+	add("destruct:rest-pattern-catch", "() => { try { throw [1, 2, 3]; } catch ([h, ...{length}]) { return [h, length]; } }", false)
+	add("destruct:rest-pattern-assign", "() => { var h, l; [h, ...{length: l}] = [1, 2, 3]; return [h, l]; }", false)
 	// object rest nested inside array elements / properties that have default values
 	add("rest:in-array-default", "() => { var [{a, ...r} = {}] = [{a: 1, b: 2}]; return [a, r]; }", false)
 	add("rest:in-array-default-missing", "() => { var [{a, ...r} = {z: "+P("9")+"}] = []; return [a, r]; }", false)
